@@ -647,13 +647,16 @@ mod detail {
                 .iter()
                 .rev()
                 .find(|left_op| left_op.bin_op.op.prio <= op.bin_op.op.prio);
-            match left_op {
-                Some(left_op) => {
-                    left_op.bin_op.op.prio < op.bin_op.op.prio
-                        || left_op.bin_op.idx == op.bin_op.idx
+            // an operator that carries the unary operator of a parenthesized group
+            // has to remain the last operator of its group
+            op.unary_op.len() == 0
+                && match left_op {
+                    Some(left_op) => {
+                        left_op.bin_op.op.prio < op.bin_op.op.prio
+                            || left_op.bin_op.idx == op.bin_op.idx
+                    }
+                    None => true,
                 }
-                None => true,
-            }
         };
         let prio_increase =
             |bin_op_idx: usize| match (&nodes[bin_op_idx].kind, &nodes[bin_op_idx + 1].kind) {
